@@ -974,6 +974,9 @@ func (ro *RedisOutput) sendCmdsBatch(replayWait usync.WaitCloser, conn client.Re
 	}
 
 	sendFuncOnce := func(shouldInTransaction, shouldUpdateCP bool, lastOffset int64) error {
+		if lastOffset < 0 { // nothing consumed yet in this run, keep the stored checkpoint
+			shouldUpdateCP = false
+		}
 		if len(cmdQueue) == 0 && shouldInTransaction && !shouldUpdateCP {
 			return nil
 		}
